@@ -35,7 +35,7 @@ func (c10) Meta() fw.Meta {
 			"values are chosen so that floating-point addition is exact: the property is about WHICH values are added, not about association order",
 			"directory names contain no dots (items are dotted paths)",
 		},
-		Obligations: []string{"function_sums", "cli_sums", "slots_summed", "slot_all_nan", "slot_single_contributor", "first_file_hole", "single_file_item", "layout_mismatch_rejected", "no_match_item", "no_match_file", "unclean_base_spelling", "single_archive_selection", "edge_window", "file_pattern_with_directory", "remote_sums", "slow_first_item_runs"},
+		Obligations: []string{"function_sums", "cli_sums", "slots_summed", "slot_all_nan", "slot_single_contributor", "first_file_hole", "single_file_item", "layout_mismatch_rejected", "no_match_item", "no_match_file", "unclean_base_spelling", "single_archive_selection", "edge_window", "file_pattern_with_directory", "remote_sums", "slow_first_item_runs", "remote_sums_with_concurrent_clients", "server_socket_writes_delayed", "concurrent_noise_requests_served"},
 		Workers:     12,
 	}
 }
@@ -274,7 +274,11 @@ func (c10) Run(c *fw.Ctx) {
 		}
 	}
 	// the same sums through a real server, with item and file names that need escaping in the query
-	if u, served, ok := workerServer(c); ok && c.Index%2 == 0 {
+	srv := workerServer
+	if c.Index%4 == 0 {
+		srv = workerServer1P // one scheduler thread, delayed socket writes, other clients reading meanwhile
+	}
+	if u, served, ok := srv(c); ok && c.Index%2 == 0 {
 		name := fmt.Sprintf("c10-%d", c.Index)
 		link := filepath.Join(served, name)
 		os.Symlink(vt.Base, link)
@@ -285,29 +289,46 @@ func (c10) Run(c *fw.Ctx) {
 			odd.Items["cpu+load&x"] = append(odd.Items["cpu+load&x"], fn)
 		}
 		sort.Strings(odd.Items["cpu+load&x"])
-		for _, q := range []struct{ item, pat string }{{"cpu+load&x", "*.wsp"}, {"cpu+load&x", "a+*.wsp"}, {"grpA", "*.wsp"}} {
-			tree := vt
-			if q.item == "cpu+load&x" {
-				tree = odd
-				if q.pat == "a+*.wsp" {
-					tree = sumTree{Base: vt.Base, L: l, Items: map[string][]string{q.item: {"a+b.wsp"}}, Now: vnow}
+		var noise []string
+		if c.Index%4 == 0 {
+			for d, fs := range vt.Items {
+				for _, fn := range fs {
+					if len(noise) < 6 {
+						noise = append(noise, filepath.Join(name, strings.ReplaceAll(d, ".", "/"), fn))
+					}
 				}
 			}
-			want, _ := expectedSum(tree, q.item, -1, 0, vnow, vnow, c)
-			_, got, err := wcmd.VerifSumWhisperFile(u, name+"."+q.item, q.pat, -1, 0, u32(vnow), u32(vnow))
-			c.Count("remote_sums", 1)
-			det := fw.J{"item": q.item, "pattern": q.pat, "via": "server"}
-			if err != nil {
-				c.Violationf("remote-sum-error", det, "sum of item %q pattern %q through the server failed: %v", q.item, q.pat, err)
-				break
-			}
-			for ai := range l.Archs {
-				if msg := seriesEqual(got[ai], want[ai]); msg != "" {
-					c.Violationf("sum-differs", det, "remote sum of item %q pattern %q archive %d differs: %s", q.item, q.pat, ai, msg)
-					break
-				}
+			sort.Strings(noise)
+			c.Count("remote_sums_with_concurrent_clients", 1)
+			if server1PDelayed(c) {
+				c.Count("server_socket_writes_delayed", 1)
 			}
 		}
+		withServerNoise(c, u, noise, func() {
+			for _, q := range []struct{ item, pat string }{{"cpu+load&x", "*.wsp"}, {"cpu+load&x", "a+*.wsp"}, {"grpA", "*.wsp"}} {
+				tree := vt
+				if q.item == "cpu+load&x" {
+					tree = odd
+					if q.pat == "a+*.wsp" {
+						tree = sumTree{Base: vt.Base, L: l, Items: map[string][]string{q.item: {"a+b.wsp"}}, Now: vnow}
+					}
+				}
+				want, _ := expectedSum(tree, q.item, -1, 0, vnow, vnow, c)
+				_, got, err := wcmd.VerifSumWhisperFile(u, name+"."+q.item, q.pat, -1, 0, u32(vnow), u32(vnow))
+				c.Count("remote_sums", 1)
+				det := fw.J{"item": q.item, "pattern": q.pat, "via": "server"}
+				if err != nil {
+					c.Violationf("remote-sum-error", det, "sum of item %q pattern %q through the server failed: %v", q.item, q.pat, err)
+					break
+				}
+				for ai := range l.Archs {
+					if msg := seriesEqual(got[ai], want[ai]); msg != "" {
+						c.Violationf("sum-differs", det, "remote sum of item %q pattern %q archive %d differs: %s", q.item, q.pat, ai, msg)
+						break
+					}
+				}
+			}
+		})
 	}
 	// nothing matched => not-exist
 	if _, _, err := wcmd.VerifSumWhisperFile(vt.Base, "grpA", "zz*.wsp", -1, 0, u32(vnow), u32(vnow)); err == nil || !os.IsNotExist(err) {
